@@ -337,7 +337,8 @@ impl FileServer for FileServerReal
 
 		let filename_path = std::path::PathBuf::from(filename);
 
-		if !filename_path.exists()
+		if util::is_std_path(filename) ||
+			!filename_path.exists()
 		{
 			report_error(
 				report,
